@@ -511,7 +511,15 @@ func hook(c rescorr.Case, ms *yang.Modules, errs []error, out *rescorr.GoOut) {
 		out.Extra["outside_claim"] = []string{"1"}
 		return
 	}
+	if rescorr.FromPath(c) && len(out.Extra["loaded"]) != len(c.Names) {
+		// files on disk: generator knowledge speaks about the whole set; when Process did not load
+		// every file (cannot happen while every module imports all others) the oracles do not apply
+		out.Extra["partial_load"] = []string{"1"}
+		return
+	}
 	out.Findings = append(out.Findings, oracleOnce(k, out.Dump)...)
+	// for a files-on-disk case the base outcome comes from the implicit load, every variant hands all
+	// texts over explicitly (in permuted order): both ways of loading must give the same outcome
 	oraclePerm(c, k, out)
 }
 
@@ -528,6 +536,83 @@ func caseOf(s *gen.C07Set, seed int64, maxVariants int) rescorr.Case {
 	}
 	b, _ := json.Marshal(k)
 	return rescorr.Case{Names: names, Texts: texts, Extra: map[string]string{"c07": string(b)}}
+}
+
+// pathCase is the files-on-disk variant of a generated case (rescorr.FromPath): only the roots are
+// handed to Parse, everything else lies on the search path and is read by Process while it links
+// imports and includes. Roots: a random non-empty subset of the modules, often a single one, plus
+// now and then a submodule of a root module (never a submodule without its module: finding D04-P1).
+// Every module of a generated set imports all others, so the whole set ends up loaded and the
+// generator knowledge applies as it stands. Sets with several revisions of one name are left out
+// (rescorr does not ask the model for them, and a bare import would pick a file by name).
+func pathCase(c rescorr.Case, s *gen.C07Set, r *rand.Rand) (rescorr.Case, bool) {
+	for _, n := range c.Names {
+		if strings.Contains(n, "@") {
+			return c, false
+		}
+	}
+	var mods []int
+	for i, m := range s.Mods {
+		if !m.Sub {
+			mods = append(mods, i)
+		}
+	}
+	if len(mods) == 0 || len(s.Mods) < 2 {
+		return c, false
+	}
+	root := map[int]bool{}
+	if r.Intn(2) == 0 {
+		root[mods[r.Intn(len(mods))]] = true
+	} else {
+		for _, i := range mods {
+			if r.Intn(2) == 0 {
+				root[i] = true
+			}
+		}
+		if len(root) == 0 || len(root) == len(s.Mods) {
+			root = map[int]bool{mods[r.Intn(len(mods))]: true}
+		}
+	}
+	for i, m := range s.Mods {
+		if m.Sub && r.Intn(5) == 0 {
+			for j, o := range s.Mods {
+				if o == m.Owner && root[j] {
+					root[i] = true
+				}
+			}
+		}
+	}
+	if len(root) == len(s.Mods) {
+		return c, false
+	}
+	var rs []string
+	for i := range s.Mods {
+		if root[i] {
+			rs = append(rs, strconv.Itoa(i))
+		}
+	}
+	r.Shuffle(len(rs), func(i, j int) { rs[i], rs[j] = rs[j], rs[i] })
+	pc := c
+	pc.Extra = map[string]string{"c07": c.Extra["c07"], "label": "path", "from_path": "1", "roots": strings.Join(rs, ",")}
+	return pc, true
+}
+
+// implicitAugments counts the augment statements of a files-on-disk case that are written in files
+// the caller did not hand over.
+func implicitAugments(c rescorr.Case, k *know) int {
+	root := map[string]bool{}
+	for _, f := range strings.Split(c.Extra["roots"], ",") {
+		if i, err := strconv.Atoi(f); err == nil && i >= 0 && i < len(c.Names) {
+			root[c.Names[i]] = true
+		}
+	}
+	n := 0
+	for _, a := range k.Augs {
+		if !root[a.File] {
+			n++
+		}
+	}
+	return n
 }
 
 // corpusCase builds a hand-written set: every line that starts with "  augment " is one augment
@@ -806,6 +891,59 @@ func corpus(seed int64) []rescorr.Case {
 			nd("base", "/base/c/fromoldsub", "urn:m"), nd("base", "/base/c/fromnewsub", "urn:m"),
 			nd("m", "/m", "urn:m"), nd("m", "/m/mc", "urn:m"), nd("m", "/m/mc/x", "urn:m"), nd("m", "/m/mc/fromoldsub2", "urn:m"), nd("m", "/m/subnew", "urn:m")},
 		seed+int64(len(out))))
+	// 23.-25. files on disk: only the top module is handed over, Process finds the rest on the search
+	// path; the augments written in the implicitly loaded files are applied like all others
+	onPath := func(c rescorr.Case, roots string) rescorr.Case {
+		c.Extra = map[string]string{"c07": c.Extra["c07"], "label": "corpus-path", "from_path": "1", "roots": roots}
+		return c
+	}
+	pnm := map[string]string{"urn:base": "base", "urn:ext": "ext", "urn:top": "top", "urn:host": "host"}
+	pImport := corpusCase("path-import-chain", []string{"base.yang", "ext.yang", "top.yang"}, []string{
+		"module base {\n  namespace \"urn:base\";\n  prefix b;\n  container c {\n    leaf name { type string; }\n  }\n}\n",
+		"module ext {\n  namespace \"urn:ext\";\n  prefix e;\n  import base { prefix b; }\n" +
+			"  augment \"/b:c\" { container box { leaf w { type string; } } }\n}\n",
+		"module top {\n  namespace \"urn:top\";\n  prefix t;\n  import base { prefix b; }\n  import ext { prefix e; }\n" +
+			"  augment \"/b:c/e:box\" { leaf y { type string; } }\n}\n"},
+		pnm, []cAug{ap(nd("base", "/base/c/box", "urn:ext")), ap(nd("base", "/base/c/box/y", "urn:top"))},
+		[]gen.C07Node{nd("base", "/base", "urn:base"), nd("base", "/base/c", "urn:base"), nd("base", "/base/c/name", "urn:base"),
+			nd("base", "/base/c/box", "urn:ext"), nd("base", "/base/c/box/w", "urn:ext"), nd("base", "/base/c/box/y", "urn:top"),
+			nd("ext", "/ext", "urn:ext"), nd("top", "/top", "urn:top")}, seed+int64(len(out)))
+	out = append(out, onPath(pImport, "2"))
+	pInclude := corpusCase("path-include", []string{"host.yang", "host-sub.yang"}, []string{
+		"module host {\n  namespace \"urn:host\";\n  prefix h;\n  include host-sub;\n  container h {\n    leaf own { type string; }\n  }\n}\n",
+		"submodule host-sub {\n  belongs-to host { prefix h; }\n" +
+			"  augment \"/h:h\" { leaf s { type string; } }\n}\n"},
+		pnm, []cAug{ap(nd("host", "/host/h/s", "urn:host"))},
+		[]gen.C07Node{nd("host", "/host", "urn:host"), nd("host", "/host/h", "urn:host"), nd("host", "/host/h/own", "urn:host"), nd("host", "/host/h/s", "urn:host")},
+		seed+int64(len(out)))
+	out = append(out, onPath(pInclude, "0"))
+	pMissing := corpusCase("path-missing-target-in-implicit-module", []string{"base.yang", "ext.yang", "top.yang"}, []string{
+		"module base {\n  namespace \"urn:base\";\n  prefix b;\n  container c {\n    leaf name { type string; }\n  }\n}\n",
+		"module ext {\n  namespace \"urn:ext\";\n  prefix e;\n  import base { prefix b; }\n" +
+			"  augment \"/b:c/b:nowhere\" { leaf w { type string; } }\n}\n",
+		"module top {\n  namespace \"urn:top\";\n  prefix t;\n  import base { prefix b; }\n  import ext { prefix e; }\n" +
+			"  augment \"/b:c\" { leaf y { type string; } }\n}\n"},
+		pnm, []cAug{{expect: gen.C07MissingT}, ap(nd("base", "/base/c/y", "urn:top"))}, nil, seed+int64(len(out)))
+	out = append(out, onPath(pMissing, "2"))
+	// 26.-28. what goes wrong while an augment is merged is recorded on the target; a deviation that
+	// removes the target afterwards must not take the report with it
+	dnm := map[string]string{"urn:t": "t", "urn:a": "a", "urn:d": "d"}
+	dT := "module t {\n  namespace \"urn:t\";\n  prefix t;\n  container c {\n    leaf x { type string; }\n  }\n  container other {\n    leaf o { type string; }\n  }\n}\n"
+	dD := "module d {\n  namespace \"urn:d\";\n  prefix d;\n  import t { prefix t; }\n  deviation \"/t:c\" {\n    deviate not-supported;\n  }\n}\n"
+	dA := func(body string) string {
+		return "module a {\n  namespace \"urn:a\";\n  prefix a;\n  import t { prefix t; }\n  augment \"/t:c\" { " + body + " }\n}\n"
+	}
+	out = append(out, corpusCase("clash-then-not-supported", []string{"t.yang", "a.yang", "d.yang"}, []string{dT,
+		dA("leaf x { type string; } leaf z { type string; }"), dD},
+		dnm, []cAug{{expect: gen.C07Collide}}, nil, seed+int64(len(out))))
+	out = append(out, corpusCase("bad-body-then-not-supported", []string{"t.yang", "a.yang", "d.yang"}, []string{dT,
+		dA("leaf q { type string; } container q;"), dD},
+		dnm, []cAug{{expect: gen.C07BodyErr}}, nil, seed+int64(len(out))))
+	out = append(out, corpusCase("clean-then-not-supported(control)", []string{"t.yang", "a.yang", "d.yang"}, []string{dT,
+		dA("leaf z { type string; }"), dD},
+		dnm, []cAug{{expect: gen.C07Apply, flag: "notunique"}},
+		[]gen.C07Node{nd("t", "/t", "urn:t"), nd("t", "/t/other", "urn:t"), nd("t", "/t/other/o", "urn:t"), nd("a", "/a", "urn:a"), nd("d", "/d", "urn:d")},
+		seed+int64(len(out))))
 	return out
 }
 
@@ -843,6 +981,10 @@ func shapeOf(i int) int {
 		// several revisions of one module or submodule loaded at once: also a fifth
 		return gen.C07MultiRev
 	}
+	if (i/2)%10 == 3 {
+		// a failing augment whose target a deviation removes afterwards: nothing else may fail in such a set
+		return gen.C07DevGone
+	}
 	shape := 1 + (i/2)%(gen.C07NumShapes-1)
 	if shape == gen.C07ImplicitCase && (i/2/(gen.C07NumShapes-1))%4 != 0 {
 		shape = gen.C07ChainWorst + (i/2)%2
@@ -868,7 +1010,7 @@ func main() {
 	const batch = 4000
 	distinct := lib.NewDistinct()
 	all := lib.NewDistinct()
-	var clean, withErr, outside, skipped, outsideClaim, variantsRun, expClean, expErr, exhaustive, total, childlessSets, childlessSets2, sharedOnlySets, oldRevSets, multiRevSets int64
+	var clean, withErr, outside, skipped, outsideClaim, variantsRun, expClean, expErr, exhaustive, total, childlessSets, childlessSets2, sharedOnlySets, oldRevSets, multiRevSets, pathCases, pathImplicit, pathPartial, noModel, devErrSets, devCtlSets int64
 	shapeCount := map[string]int64{}
 	expectCount := map[string]int64{}
 	originCount := map[string]int64{}
@@ -882,7 +1024,15 @@ func main() {
 			ncorpus = len(cases)
 		}
 		for i := lo; i < lo+batch && i < n; i++ {
-			cases = append(cases, caseOf(gen.GenerateC07(f.Rand(i), shapeOf(i)), f.Seed*1000003+int64(i), 24))
+			set := gen.GenerateC07(f.Rand(i), shapeOf(i))
+			c := caseOf(set, f.Seed*1000003+int64(i), 24)
+			cases = append(cases, c)
+			if i%4 == 1 {
+				// the same set once more with most files on the search path only
+				if pc, ok := pathCase(c, set, f.Rand(n+i)); ok {
+					cases = append(cases, pc)
+				}
+			}
 		}
 		total += int64(len(cases))
 		outs := rescorr.RunAll(cases, f)
@@ -918,6 +1068,20 @@ func main() {
 					oldRevSets++
 					break
 				}
+			}
+			devErr, devCtl := false, false
+			for _, a := range k.Augs {
+				if a.DevRemoved && (a.Expect == gen.C07Collide || a.Expect == gen.C07BodyErr) {
+					devErr = true
+				}
+				if a.DevRemoved && a.Expect == gen.C07Apply {
+					devCtl = true
+				}
+			}
+			if devErr {
+				devErrSets++
+			} else if devCtl {
+				devCtlSets++
 			}
 			multi := map[string]bool{}
 			for _, n := range o.Case.Names {
@@ -982,6 +1146,11 @@ func main() {
 				flagged = true
 				texts := byKind[kind]
 				d := lib.Disagreement{Kind: "spec", Input: o.Case, SpecVerdict: "violates", Known: knownOf[kind], Replay: o.Case}
+				if rescorr.FromPath(o.Case) && len(o.Go.Extra["late_loaded"]) > 0 {
+					// finding D04-P1 (known_findings.txt): a module read from the path after the linking
+					// walk keeps its augments unapplied; cannot arise while a module is among the roots
+					d.Known = "D04-P1"
+				}
 				if d.Known != "" {
 					knownCount[d.Known]++
 				}
@@ -1006,8 +1175,21 @@ func main() {
 				oracleCount[kind]++
 				res.AddDisagreement(d)
 			}
+			if rescorr.FromPath(o.Case) {
+				pathCases++
+				if implicitAugments(o.Case, k) > 0 {
+					pathImplicit++
+				}
+				if len(o.Go.Extra["partial_load"]) > 0 {
+					pathPartial++
+				}
+			}
 			if o.Outside != "" {
 				outside++
+				continue
+			}
+			if o.NoModel != "" {
+				noModel++
 				continue
 			}
 			// (a) correspondence with the model
@@ -1023,7 +1205,7 @@ func main() {
 					What: "resolver differs from the model: " + d, Replay: o.Case})
 			}
 			// bookkeeping
-			key := strings.Join(o.Case.Texts, "\x00")
+			key := strings.Join(o.Case.Texts, "\x00") + "\x00" + o.Case.Extra["roots"]
 			fresh := all.Add(key)
 			nontrivial := false
 			if rescorr.HasErrors(o.Go.Dump) {
@@ -1084,6 +1266,12 @@ func main() {
 	res.Distribution["sets_whose_only_expected_failure_is_a_shared_grouping_collision"] = sharedOnlySets
 	res.Distribution["sets_with_several_revisions_of_one_module_or_submodule"] = multiRevSets
 	res.Distribution["sets_with_an_augment_written_in_a_non_latest_revision"] = oldRevSets
+	res.Distribution["path_cases(files on disk, roots handed over)"] = pathCases
+	res.Distribution["path_cases_with_an_augment_in_an_implicitly_loaded_file"] = pathImplicit
+	res.Distribution["path_cases_not_fully_loaded(oracles skipped)"] = pathPartial
+	res.Distribution["path_cases_model_not_asked"] = noModel
+	res.Distribution["sets_with_a_failing_augment_whose_target_a_not_supported_deviation_removes"] = devErrSets
+	res.Distribution["sets_with_a_clean_augment_whose_target_a_not_supported_deviation_removes"] = devCtlSets
 	res.Distribution["outside_model"] = outside
 	res.Distribution["go_parse_rejected"] = skipped
 	res.Distribution["outside_claim(implicit case as target)"] = outsideClaim
